@@ -229,6 +229,117 @@ fn check_case(case: &Value, stats: &mut Stats) -> CheckResult {
     Ok(())
 }
 
+/// Chains that contain null moves (valid chain content through `push_unchecked` while the mover is not in check):
+/// the walker must hand out every move with the position the chain itself was in when the move was pushed, in any
+/// order of steps, and printing must not fail. The expected positions are the ones *recorded from the chain at push
+/// time* (what a null move does to the clocks is not specified, so no model is consulted for them).
+/// `case` = position case + {"plan": bytes, "walk": bytes}.
+fn null_walk_check(case: &Value, stats: &mut Stats) -> CheckResult {
+    use owlchess::moves::Move;
+    let (b, _) = match case_board(case, stats)? {
+        Some(x) => x,
+        None => return Ok(()),
+    };
+    let bytes = |k: &str| -> Vec<u8> { case[k].as_array().map(|a| a.iter().map(|x| x.as_u64().unwrap_or(0) as u8).collect()).unwrap_or_default() };
+    let mut chain = MoveChain::new(b);
+    let mut before: Vec<crate::common::Snapshot> = Vec::new();
+    let mut moves: Vec<Move> = Vec::new();
+    let mut nulls = 0;
+    for byte in bytes("plan") {
+        let cur = chain.last().clone();
+        if byte % 3 == 0 && !cur.is_check() {
+            before.push(snapshot(&cur));
+            unsafe { chain.push_unchecked(Move::NULL) };
+            moves.push(Move::NULL);
+            nulls += 1;
+        } else {
+            let l = owlchess::movegen::legal::gen_all(&cur);
+            if l.is_empty() {
+                break;
+            }
+            let m = l[(byte as usize / 3) % l.len()];
+            before.push(snapshot(&cur));
+            chain.push(m).map_err(|e| Failure::new(format!("legal move {} refused: {}", mv_desc(&m), e)))?;
+            moves.push(m);
+        }
+    }
+    let n = moves.len();
+    ensure!(chain.len() == n, "chain.len() = {} after {} pushes", chain.len(), n);
+    let copy = chain.clone();
+    let end = snapshot(chain.last());
+    {
+        let mut w = chain.walk();
+        let mut pos = 0usize;
+        let mut forward_over_null = false;
+        for byte in bytes("walk") {
+            match byte % 8 {
+                0..=2 => {
+                    let got = w.next().map(|(bd, m)| (snapshot(bd), m));
+                    if pos == n {
+                        ensure!(got.is_none(), "Walker::next at the end returned a move");
+                    } else {
+                        let (snap, m) = got.ok_or_else(|| Failure::new(format!("Walker::next returned None at index {} of {}", pos, n)))?;
+                        ensure!(m == moves[pos], "Walker::next returned {} at index {}, the chain has {}", mv_desc(&m), pos, mv_desc(&moves[pos]));
+                        ensure!(snap == before[pos], "Walker::next at index {}: position differs from the one the move was pushed in: {}", pos, snap_diff(&snap, &before[pos]));
+                        if pos > 0 && moves[pos - 1] == Move::NULL {
+                            forward_over_null = true;
+                        }
+                        pos += 1;
+                    }
+                }
+                3..=5 => {
+                    let got = w.prev().map(|(bd, m)| (snapshot(bd), m));
+                    if pos == 0 {
+                        ensure!(got.is_none(), "Walker::prev at the start returned a move");
+                    } else {
+                        pos -= 1;
+                        let (snap, m) = got.ok_or_else(|| Failure::new(format!("Walker::prev returned None at index {}", pos)))?;
+                        ensure!(m == moves[pos], "Walker::prev returned {} at index {}, the chain has {}", mv_desc(&m), pos, mv_desc(&moves[pos]));
+                        ensure!(snap == before[pos], "Walker::prev at index {}: position differs from the one the move was pushed in: {}", pos, snap_diff(&snap, &before[pos]));
+                    }
+                }
+                6 => {
+                    w.start();
+                    pos = 0;
+                }
+                _ => {
+                    w.end();
+                    pos = n;
+                }
+            }
+            ensure!(w.pos() == pos && w.len() == n, "Walker::pos() = {} but the cursor model says {}", w.pos(), pos);
+        }
+        if forward_over_null {
+            stats.label("walked_forward_over_a_null_move");
+        }
+    }
+    ensure!(chain == copy && snapshot(chain.last()) == end, "walking changed the chain");
+    // printing: the coordinate styles are defined for every chain content (SAN of a null move is not)
+    let text = chain.uci().to_string();
+    let toks: Vec<&str> = text.split_whitespace().collect();
+    ensure!(toks.len() == n, "uci() text {:?} has {} tokens, the chain has {} moves", text, toks.len(), n);
+    for (i, t) in toks.iter().enumerate() {
+        ensure!(*t == moves[i].uci().to_string(), "uci() token #{} is {:?}, the move prints as {:?}", i, t, moves[i].uci().to_string());
+    }
+    let styled = chain.styled(NumberPolicy::Omit, Style::Uci, GameStatusPolicy::Show).to_string();
+    let want = if n == 0 { "*".to_string() } else { format!("{} *", text) };
+    ensure!(styled == want, "styled(omit, uci, show) = {:?}, expected {:?}", styled, want);
+    stats.label_if(nulls > 0, "chain_with_null_move");
+    if nulls > 0 && n > nulls {
+        stats.nontrivial(&(case["fen"].to_string(), case["plan"].to_string(), case["walk"].to_string()));
+    }
+    Ok(())
+}
+
+fn gen_null_walk_case(cur: &mut Cursor) -> Value {
+    let mut c = gen_pos_case(cur);
+    let n = 1 + cur.below(12);
+    c["plan"] = json!((0..n).map(|_| cur.u8()).collect::<Vec<u8>>());
+    let k = 4 + cur.below(40);
+    c["walk"] = json!((0..k).map(|_| cur.u8()).collect::<Vec<u8>>());
+    c
+}
+
 pub fn property() -> Property {
     Property {
         id: "C17",
@@ -242,7 +353,9 @@ pub fn property() -> Property {
                continuing from the start/custom number, final 1-0|0-1|1/2-1/2|* iff Show; per-move tokens from the reference SAN / coordinate writers). Non-trivial = walker script with a direction change after a jump, or a chain \
                that starts with Black; distinct by case. long_chain: three chains of 65,541-70,003 plies (more than 16 bits of plies) \
                built from a reversible 4-ply cycle: walker from both ends across the 2^16 boundary and a full forward pass against the \
-               model, UCI text, and popping everything.",
+               model, UCI text, and popping everything. walk_with_null_moves: chains of 1-12 legal and null moves (null through push_unchecked \
+               while not in check), walker script against the positions recorded from the chain at push time, chain untouched, uci() and \
+               styled(omit, uci, show) token by token.",
         assumptions: &["NumberPolicy::Custom(n) is generated over the whole range for which n + game length fits in usize (including values around 2^63 and near usize::MAX); beyond that usize arithmetic itself overflows and no property speaks about it"],
         subchecks: vec![SubCheck {
             name: "walk_and_print",
@@ -261,6 +374,15 @@ pub fn property() -> Property {
             check: long_chain_check,
             configs: Configs::Both,
             required: &["long_chain"],
+            regressions: &[],
+            exhaustive: false,
+        },
+        SubCheck {
+            name: "walk_with_null_moves",
+            driver: Driver::Generated { gen: gen_null_walk_case, genome_len: 300, quick: 200_000, thorough: 1_600_000 },
+            check: null_walk_check,
+            configs: Configs::Both,
+            required: &["chain_with_null_move", "walked_forward_over_a_null_move"],
             regressions: &[],
             exhaustive: false,
         }],
